@@ -17,7 +17,7 @@ import (
 //   spec.template.rev  "revisioned" value copied into every child
 //   spec.extra         "non-revisioned" value copied into every child
 //   spec.mode          "fixed" (default) | "ordered"
-//   spec.kids[]        {apiVersion, kind, name, ns?, value}
+//   spec.kids[]        {apiVersion, kind, name, ns?, value, metaExtra?{...copied into metadata}}
 //   spec.statusExtra   copied verbatim into the returned status
 //   spec.finalize      "all" (default: drop everything at once) | "step" (one child per call)
 
@@ -46,6 +46,11 @@ func BuildChild(kid Obj, labels map[string]interface{}, rev, extra string) Obj {
 			l[k] = v
 		}
 		m["labels"] = l
+	}
+	if extra, ok := kid["metaExtra"].(map[string]interface{}); ok {
+		for k, v := range extra {
+			m[k] = DeepCopyValue(v)
+		}
 	}
 	child := Obj{"apiVersion": apiVersion, "kind": kind, "metadata": m}
 	switch kind {
